@@ -208,6 +208,49 @@ Proof.
   - eapply lframe_lift; [exact H2|]. intros c Hc. eapply cframe_set_net_fee; exact Hc.
 Qed.
 
+(* ---- the ops added with the ESM / refund paths ---- *)
+Lemma v2_trigger_esm_lframe s app da collected fee s' : v2_trigger_esm s app da collected fee = Ok s' -> lframe s s'.
+Proof.
+  unfold v2_trigger_esm. destruct (collected <? 0); [discriminate|].
+  destruct ((if collected >? fee then fee else collected) <? 0); [discriminate|]. apply penalty_lframe.
+Qed.
+
+Lemma esm_redeem_loop_cframe l : forall c app c', esm_redeem_loop c app l = Ok c' -> cframe c c'.
+Proof.
+  induction l as [|[asset cls] r IH]; intros c app c'; cbn [esm_redeem_loop].
+  - intros H; injection H as <-. apply cframe_refl.
+  - destruct (nf c (app, asset)) as [x|]; [|apply IH].
+    destruct ((cls =? 0) || (x =? 0)); [apply IH|]. destruct (cls =? 3); [discriminate|]. destruct (negb (cls =? 1)); [discriminate|].
+    destruct (csend c A_COLLECTOR A_EXT asset x) as [c1| |] eqn:S; try discriminate.
+    pose proof (cframe_csend _ _ _ _ _ _ collector_ne_locker S) as F1.
+    destruct (decrease_net_fee c1 app asset x) as [c2| |] eqn:D; try discriminate.
+    + intros H. eapply cframe_trans; [exact F1|]. eapply cframe_trans; [exact (cframe_decrease _ _ _ _ _ D)|exact (IH _ _ _ H)].
+    + intros H; injection H as <-. exact F1.
+Qed.
+
+Lemma esm_redeem_lframe s app st l s' : esm_redeem s app st l = Ok s' -> lframe s s'.
+Proof.
+  unfold esm_redeem. destruct (negb st); [discriminate|]. intros H.
+  eapply lframe_lift; [exact H|]. intros c Hc. exact (esm_redeem_loop_cframe _ _ _ _ Hc).
+Qed.
+
+Lemma user_ne_locker u : 0 <= u -> user u <> A_LOCKER.
+Proof. intros Hu E. pose proof (user_not_locker u Hu) as H. rewrite E in H. discriminate H. Qed.
+
+Lemma msg_cdeposit_lframe s u app d amt done s' : 0 <= u -> msg_cdeposit s u app d amt done = Ok s' -> lframe s s'.
+Proof.
+  intros Hu. unfold msg_cdeposit. destruct (amt <=? 0); [discriminate|]. destruct (app =? 0); [discriminate|].
+  destruct done; [discriminate|]. destruct (negb (has_asset (cs s) d)); [discriminate|].
+  destruct (negb (d =? 3)); [discriminate|]. destruct (negb (app =? 2)); [discriminate|].
+  intros H. apply obind_ok in H. destruct H as (s1 & H1 & H2). apply obind_ok in H2. destruct H2 as (s2 & H2 & H3).
+  destruct (bnk (cs s2) (A_COLLECTOR, 3) >? INT64_MAX); [discriminate|]. destruct (bnk (cs s2) (A_COLLECTOR, 3) <? REFUND_TOTAL); [discriminate|].
+  apply obind_ok in H3. destruct H3 as (s3 & H3 & H4).
+  eapply lframe_trans; [eapply lframe_lift; [exact H1|intros c Hc; eapply cframe_csend; [exact (user_ne_locker u Hu)|exact Hc]]|].
+  eapply lframe_trans; [eapply lframe_lift; [exact H2|intros c Hc; eapply cframe_set_net_fee; exact Hc]|].
+  eapply lframe_trans; [eapply lframe_lift; [exact H3|intros c Hc; eapply cframe_csend; [exact collector_ne_locker|exact Hc]]|].
+  eapply lframe_lift; [exact H4|intros c Hc; eapply cframe_decrease; exact Hc].
+Qed.
+
 (* ---- the savings-rate change: collector.LockerIterateRewards ---- *)
 Definition ids_ok (s : state) (app asset : Z) (ids : list Z) : Prop :=
   forall id x, In id ids -> find_locker (lockers s) id = Some x -> l_app x = app /\ l_asset x = asset.
@@ -334,6 +377,9 @@ Proof.
   - intros H. exact (lframe_linv _ _ HI (v2_surplus_close_lframe _ _ _ _ _ H)).
   - intros H. exact (lframe_linv _ _ HI (v2_debt_close_lframe _ _ _ _ _ _ _ H)).
   - intros H. exact (lframe_linv _ _ HI (penalty_lframe _ _ _ _ _ _ H)).
+  - intros H. exact (lframe_linv _ _ HI (v2_trigger_esm_lframe _ _ _ _ _ _ H)).
+  - intros H. exact (lframe_linv _ _ HI (esm_redeem_lframe _ _ _ _ _ H)).
+  - intros H. refine (lframe_linv _ _ HI (msg_cdeposit_lframe _ _ _ _ _ _ _ _ H)). cbn in Hv. lia.
 Qed.
 
 Lemma apply_step_linv s o : LInv s -> valid_op o = true -> LInv (apply_step s o).
